@@ -15,6 +15,7 @@ TInit == TLCSet(1, 0) /\ l = 1
 ScanOK(sc, s, L) ==
   /\ sc.toks = L.toks
   /\ sc.each = L.toks /\ sc.splitm = L.toks
+  /\ sc.splitm2 = <<>>             \* a second Split on the exhausted scanner yields nothing
   /\ Len(sc.completes) = Len(L.toks)
   /\ \A i \in DOMAIN sc.completes :
        sc.completes[i] = (IF i = Len(L.toks) /\ L.ends[i] = Len(s) THEN L.complete ELSE TRUE)
